@@ -24,6 +24,20 @@ func init() {
 	operations["rng"] = opRng
 	operations["rngs"] = opRngs
 	operations["fs.parse"] = opFsParse
+	generators["C03"] = genSeqStrings
+	generators["C04"] = genSeqStrings
+	generators["C08"] = genC08
+	generators["C09"] = genC09
+	generators["C10"] = genC10
+	generators["C11"] = genC11
+	generators["C12"] = genC12
+	operations["pad.chars"] = opPadChars
+	operations["pad.size"] = opPadSize
+	operations["f2r"] = opF2R
+	operations["padrange"] = opPadRange
+	operations["fs.norm"] = opFsNorm
+	operations["seq"] = opSeq
+	operations["seq.ops"] = opSeqOps
 }
 
 func runOp(line string) (out string) {
